@@ -138,10 +138,10 @@ theorem return_event_after_length_breaks_content_length (F : Facts13)
   ⟨⟨false, 100, 7⟩,
    { wsdl := none, soapOut := false, soapIn := false, preReject := false, readsBody := false,
      contentLength := none, docLen := 0, faultLen := 9,
-     intended := .success ⟨none, .notGen, false, .server, [5], true⟩, onReturn := some ⟨[2], true⟩, onException := none,
+     intended := .success ⟨none, .notGen, false, .server, false, [5], true⟩, onReturn := some ⟨[2], true⟩, onException := none,
      aux := .none, auxOnErrors := false, userHeaders := [],
      closeListener := .none, serverSkipsClose := false, faultBody := none, faultIter := .list },
-   5, by simp [handle, process, intendedResult, afterUser, withAux, withReturnListener, successOut, hb, ht, hj, finish,
+   5, by simp [handle, process, intendedResult, afterUser, respond, withAux, withReturnListener, successOut, hb, ht, hj, finish,
      deliver, auxEvs, hdrEvs, hdrEvsFrom, sum, chunkEvs, taken, finalEvs, finalOnce, finalRaises, rpcFinal,
      Result.atServer, atServer, bodyBytes]⟩
 
@@ -201,23 +201,42 @@ theorem aux_guard_that_is_not_catch_all_breaks_the_response (F : Facts13) (hg : 
   ⟨⟨false, 100, 7⟩,
    { wsdl := none, soapOut := false, soapIn := false, preReject := false, readsBody := false,
      contentLength := none, docLen := 0, faultLen := 9,
-     intended := .success ⟨none, .notGen, false, .server, [5], true⟩, onReturn := none, onException := none,
+     intended := .success ⟨none, .notGen, false, .server, false, [5], true⟩, onReturn := none, onException := none,
      aux := .serFail, auxOnErrors := false, userHeaders := [],
      closeListener := .none, serverSkipsClose := false, faultBody := none, faultIter := .list },
-   by simp [handle, process, intendedResult, afterUser, withAux, withReturnListener, successOut, hg, hj, finish,
+   by simp [handle, process, intendedResult, afterUser, respond, withAux, withReturnListener, successOut, hg, hj, finish,
      deliver, auxEvs, hdrEvs, hdrEvsFrom, sum, Result.atServer, atServer]⟩
 
 /-- a failure while the response is being built (a generator body failing after its first yield, an
     unserialisable value, a failing MTOM packaging) is answered through `handle_error` with the class of
-    what was raised (a Fault keeps its class, anything else is a Server fault) and with the status of
-    that fault unless the user function chose one -/
+    what was raised (a Fault keeps its class, anything else is a Server fault); the status chosen so far
+    is dropped, the fault decides -/
 theorem late_failure_is_a_fault_of_its_class (cfg : Cfg) (req : Req) (r : Resp)
     (hs : r.serializeFails = true) (hg : r.gen = .notGen ∨ r.gen = .yields) :
     afterUser facts13 cfg req r =
-      withAux req req.auxOnErrors true (errorOut facts13 req r.preset r.serFailClass) := by
+      withAux req req.auxOnErrors true (errorOut facts13 req none r.serFailClass) := by
   have h1 : facts13.lateErrorKeepsOkStatus = false := by decide
   have h2 : facts13.auxGuardError = true := by decide
-  rcases hg with hg | hg <;> simp [afterUser, hs, hg, h1, h2]
+  rcases hg with hg | hg <;> simp [afterUser, respond, lateError, hs, hg, h1, h2]
+
+/-- a value the *lazy* out protocol cannot write (JsonDocument & co. dump when their out_string is read):
+    with `chunked=False` the stream is read — joined — where the failure can still be answered, for
+    generator and ordinary methods alike: a Server fault through `handle_error`, never an exception out
+    of the callable -/
+theorem dump_failure_when_unchunked_is_a_fault (cfg : Cfg) (req : Req) (r : Resp)
+    (hs : r.serializeFails = false) (hd : r.dumpFails = true) (hc : cfg.chunked = false) :
+    respond facts13 cfg req r = withAux req req.auxOnErrors true (errorOut facts13 req none .server) := by
+  have h1 : facts13.lateErrorKeepsOkStatus = false := by decide
+  have h2 : facts13.auxGuardError = true := by decide
+  have h3 : facts13.lateJoinGuard = .all := by decide
+  simp [respond, lateError, joinGuarded, hs, hd, hc, h1, h2, h3]
+
+/-- why `lateJoinGuard` matters (any `F`): if only generator methods are joined in the guarded region, an
+    ordinary method with such a value makes the callable raise before `start_response` -/
+theorem unguarded_join_escapes (F : Facts13) (hg : F.lateJoinGuard = .generatorOnly) (cfg : Cfg) (req : Req) (r : Resp)
+    (hs : r.serializeFails = false) (hd : r.dumpFails = true) (hc : cfg.chunked = false) (hn : r.gen = .notGen) :
+    afterUser F cfg req r = .crash "TypeError" := by
+  simp [afterUser, respond, joinGuarded, hs, hd, hc, hn, hg]
 
 /-! ### the request-size limit -/
 
@@ -308,7 +327,7 @@ theorem undeclared_overlong_body_is_truncated :
   ⟨⟨true, 10, 8192⟩,
    { wsdl := none, soapOut := false, soapIn := false, preReject := false, readsBody := true,
      contentLength := none, docLen := 10, faultLen := 50,
-     intended := .success ⟨none, .notGen, false, .server, [4], true⟩, onReturn := none, onException := none,
+     intended := .success ⟨none, .notGen, false, .server, false, [4], true⟩, onReturn := none, onException := none,
      aux := .none, auxOnErrors := false, userHeaders := [],
      closeListener := .none, serverSkipsClose := false, faultBody := none, faultIter := .list },
    [15], by decide⟩
@@ -393,10 +412,10 @@ theorem finalizer_not_cleared_first_closes_twice (F : Facts13) (hf : F.finalizeC
   ⟨⟨false, 100, 7⟩,
    { wsdl := none, soapOut := false, soapIn := false, preReject := false, readsBody := false,
      contentLength := none, docLen := 0, faultLen := 9,
-     intended := .success ⟨none, .notGen, false, .server, [5], true⟩, onReturn := none, onException := none,
+     intended := .success ⟨none, .notGen, false, .server, false, [5], true⟩, onReturn := none, onException := none,
      aux := .none, auxOnErrors := false, userHeaders := [],
      closeListener := .ctxClosedRaises, serverSkipsClose := false, faultBody := none, faultIter := .list },
-   by simp [handle, process, intendedResult, afterUser, withAux, withReturnListener, successOut, hf, ht, hj, hr, finish,
+   by simp [handle, process, intendedResult, afterUser, respond, withAux, withReturnListener, successOut, hf, ht, hj, hr, finish,
      deliver, auxEvs, hdrEvs, hdrEvsFrom, sum, Result.atServer, atServer, finalEvs, finalOnce, finalAgain, finalRaises,
      exhausted, rpcFinal, chunkEvs, taken, isClosed, List.countP_cons]⟩
 
@@ -430,7 +449,7 @@ def exCfg : Cfg := ⟨true, 100, 7⟩
 def exReq : Req :=
   { wsdl := none, soapOut := false, soapIn := false, preReject := false, readsBody := true,
     contentLength := some "20".toList, docLen := 20, faultLen := 30,
-    intended := .success ⟨none, .yields, false, .server, [1, 2, 3], true⟩, onReturn := none, onException := none,
+    intended := .success ⟨none, .yields, false, .server, false, [1, 2, 3], true⟩, onReturn := none, onException := none,
      aux := .none, auxOnErrors := false, userHeaders := [],
      closeListener := .none, serverSkipsClose := false, faultBody := none, faultIter := .list }
 
@@ -481,9 +500,19 @@ example : handle facts13 exCfg { exReq with intended := .inputHandlerFails } [10
      .ctxClosed, .wsgiClose] := by decide +kernel
 -- a Fault raised by a generator body after its first yield keeps its class (hypotheses of
 -- `late_failure_is_a_fault_of_its_class`)
-example : handle facts13 exCfg { exReq with intended := .success ⟨none, .yields, true, .notFound, [1], false⟩ } [100, 100, 100] none =
+example : handle facts13 exCfg { exReq with intended := .success ⟨none, .yields, true, .notFound, false, [1], false⟩ } [100, 100, 100] none =
     [.read 7 7, .read 7 7, .read 6 6, .user, .startResponse 404 (some .notFound) (some 30), .returned, .chunk 30 true,
      .ctxClosed, .wsgiClose] := by decide +kernel
+-- a value the lazy out protocol cannot write, ordinary method, unchunked: a Server fault (the 201 the user chose is dropped)
+example : handle facts13 ⟨false, 100, 7⟩ { exReq with intended := .success ⟨some 201, .notGen, false, .server, true, [], false⟩ }
+      [100, 100, 100] none =
+    [.read 7 7, .read 7 7, .read 6 6, .user, .startResponse 500 (some .server) (some 30), .returned, .chunk 30 true,
+     .ctxClosed, .wsgiClose] := by decide +kernel
+-- ... chunked: the failure surfaces in the server's hands, after start_response; the context is still closed once
+example : handle facts13 exCfg { exReq with intended := .success ⟨some 201, .notGen, false, .server, true, [], false⟩ }
+      [100, 100, 100] none =
+    [.read 7 7, .read 7 7, .read 6 6, .user, .startResponse 201 none none, .returned, .ctxClosed, .wsgiClose] := by
+  decide +kernel
 -- a non-numeric CONTENT_LENGTH is a Client fault
 example : handle facts13 exCfg { exReq with contentLength := some "abc".toList } [200] none =
     [.startResponse 400 (some .client) (some 30), .returned, .chunk 30 true, .ctxClosed, .wsgiClose] := by
@@ -498,7 +527,7 @@ example : handle facts13 ⟨false, 100, 7⟩ exReq [100, 100, 100] none =
     [.read 7 7, .read 7 7, .read 6 6, .user, .startResponse 200 none (some 6), .returned, .chunk 6 true,
      .ctxClosed, .wsgiClose] := by decide +kernel
 -- an aborted generator body
-example : handle facts13 exCfg { exReq with intended := .success ⟨some 201, .notGen, false, .server, [1, 2, 3], false⟩ } [9, 9, 9] (some 0) =
+example : handle facts13 exCfg { exReq with intended := .success ⟨some 201, .notGen, false, .server, false, [1, 2, 3], false⟩ } [9, 9, 9] (some 0) =
     [.read 7 7, .read 7 7, .read 6 6, .user, .startResponse 201 none none, .returned, .ctxClosed, .wsgiClose] := by
   decide +kernel
 
